@@ -1074,3 +1074,112 @@ func ruleStaleErr(c *Ctx, rule string, pkgs []*packages.Package) {
 	}
 	c.Ob(rule, "functions-scanned", token.NoPos, n == 0, fns > 0, "%d functions scanned, %d stale-error returns", fns, n)
 }
+
+// c09ExpectedFromRequest (EXPECTED-FROM-REQUEST): a cached commit is verified by comparing the digest stored in the
+// cache with the digest *the requesting key pins*. The expectation handed to the verifying constructor
+// (bufmodule.CommitWithExpectedDigest) must therefore come from the request - a parameter of the reading function -
+// and must not be derived from what was read out of the cache (ParseDigest of the stored text, the unmarshalled file):
+// comparing the cached digest with itself accepts every tampering.
+func c09ExpectedFromRequest(c *Ctx, pkStore *packages.Package) {
+	const rule = "EXPECTED-FROM-REQUEST"
+	c.Rule(rule, "the digest a cached commit is checked against comes from the requesting key, not from the cache", 1)
+	p := c.P
+	n := 0
+	for _, sf := range p.SSAFuncsOf([]*packages.Package{pkStore}) {
+		for _, f := range allSSAFuncs(sf) {
+			for _, call := range callsIn(f) {
+				if !calleeIs(staticCalleeObj(call.Call), "private/bufpkg/bufmodule", "CommitWithExpectedDigest") || len(call.Call.Args) != 1 {
+					continue
+				}
+				n++
+				arg := call.Call.Args[0]
+				fromParam := false
+				root := f
+				for root.Parent() != nil {
+					root = root.Parent()
+				}
+				sliceBack(arg, func(x ssa.Value) bool {
+					if prm, ok := x.(*ssa.Parameter); ok && prm.Parent() == root {
+						fromParam = true
+					}
+					if fv, ok := x.(*ssa.FreeVar); ok && fv != nil {
+						fromParam = true // captured from the reading function; checked against the cache below
+					}
+					return true
+				})
+				fromCache := dependsOnCall(arg, func(cc *ssa.CallCommon) bool {
+					fn := staticCalleeObj(cc)
+					return fn != nil && (fn.Name() == "ParseDigest" || fn.Name() == "Unmarshal" || fn.Name() == "ReadPath" || strings.HasPrefix(fn.Name(), "Unmarshal"))
+				})
+				c.Ob(rule, fmt.Sprintf("%s#%d", ssaFuncName(f), n), call.Pos(), fromParam && !fromCache, true, "expected digest comes from a parameter of the reader (%v) and not from cached data (%v)", fromParam, !fromCache)
+			}
+		}
+	}
+	if n == 0 {
+		c.Fail(rule, "anchor", token.NoPos, "no CommitWithExpectedDigest call in the store")
+	}
+}
+
+// c09RevalidateUnconditional (REVALIDATE-UNCONDITIONAL): "a later store of the same module repairs the entry" and
+// "never leaves the entry marked complete" rest on the store re-reading the completion marker and re-deciding its
+// validity each time it has (re)acquired a lock. Whether the marker read just now is valid may depend only on that
+// read - its error and its content. For every read of the marker in the store, the isValid() decision that follows it
+// is guarded, between the read and the decision, by nothing but nil-tests of error values: a flag remembered from an
+// earlier read under another lock ("we already know it is stale") lets a complete entry written in between be
+// overwritten, and a fault during that overwrite leaves a valid marker over truncated files.
+func c09RevalidateUnconditional(c *Ctx, pkStore *packages.Package, isMarkerPath func(ssa.Value) bool) {
+	const rule = "REVALIDATE-UNCONDITIONAL"
+	c.Rule(rule, "the validity of a marker read is decided from that read alone", 2)
+	p := c.P
+	n := 0
+	for _, sf := range p.SSAFuncsOf([]*packages.Package{pkStore}) {
+		for _, f := range allSSAFuncs(sf) {
+			var reads []ssaCall
+			var valids []ssaCall
+			for _, call := range callsIn(f) {
+				if calleeIs(staticCalleeObj(call.Call), "private/pkg/storage", "ReadPath") && len(call.Call.Args) >= 3 && isMarkerPath(call.Call.Args[2]) {
+					reads = append(reads, call)
+				}
+				if fn := staticCalleeObj(call.Call); fn != nil && fn.Name() == "isValid" {
+					valids = append(valids, call)
+				}
+			}
+			for _, r := range reads {
+				// the first validity decision after this read
+				var v *ssaCall
+				for i := range valids {
+					if instrDominates(r.Instr, valids[i].Instr) && (v == nil || instrDominates(valids[i].Instr, v.Instr)) {
+						// keep the one closest to the read that no other read separates
+						sep := false
+						for _, r2 := range reads {
+							if r2.Instr != r.Instr && instrDominates(r.Instr, r2.Instr) && instrDominates(r2.Instr, valids[i].Instr) {
+								sep = true
+							}
+						}
+						if !sep {
+							v = &valids[i]
+						}
+					}
+				}
+				if v == nil {
+					continue
+				}
+				n++
+				var foreign []string
+				for _, ge := range guardingEdges(v.Instr.Block()) {
+					if !r.Instr.Block().Dominates(ge.If.Block()) {
+						continue // decided before the read
+					}
+					if x, _, ok := nilCompare(ge.If.Cond); ok && isErrorType(x.Type()) {
+						continue
+					}
+					foreign = append(foreign, ge.If.Cond.String())
+				}
+				c.Ob(rule, fmt.Sprintf("%s/read#%d", ssaFuncName(f), n), v.Pos(), len(foreign) == 0, true, "between this marker read and its isValid() decision only error tests intervene: %v %v", len(foreign) == 0, foreign)
+			}
+		}
+	}
+	if n == 0 {
+		c.Fail(rule, "anchor", token.NoPos, "no marker read followed by an isValid() decision found in the store")
+	}
+}
